@@ -204,6 +204,8 @@ class SimTextR(io.TextIOWrapper):
 
     def read(self, *a):
         self.nread += 1
+        if (not a or a[0] is None or a[0] < 0) and self.nlines > 0:
+            self.bulk_after_lines = getattr(self, "bulk_after_lines", 0) + 1  # rest of the file taken in one piece, after line-wise reading on this handle
         return super().read(*a)
 
     def close(self):
